@@ -77,13 +77,25 @@ class Ctx:
             if "fatal" in r:
                 self.disagree(suite, c, io_, r)
                 continue
-            if r.get("err") == "Other" and io_.get("err") != "Other":
+            if _declined(r, io_):
                 # the model declined this input (outside the modelled domain)
                 self.unmodelled += 1
                 continue
             self.model_compared += 1
             if r != io_:
                 self.disagree(suite, c, io_, r)
+
+
+def _declined(model, impl):
+    """the model answered `unmodelled` (error kind Other) where the implementation did not"""
+    if model.get("err") == "Other" and impl.get("err") != "Other":
+        return True
+    ms, is_ = model.get("steps"), impl.get("steps")
+    if isinstance(ms, list) and isinstance(is_, list):
+        for a, b in zip(ms, is_):
+            if isinstance(a, dict) and a.get("err") == "Other" and not (isinstance(b, dict) and b.get("err") == "Other"):
+                return True
+    return False
 
 
 def _trim(x, limit=400):
